@@ -128,22 +128,38 @@ where
                 other.as_mut().consume(processed);
                 // Check if we can squeeze a bit more data from the other side to send in the same frame
                 let mut should_shutdown = false;
-                while let Poll::Ready(Ok(new_buf)) = other.as_mut().poll_fill_buf(cx) {
-                    if new_buf.is_empty() {
-                        // The other side is EOF'd, send what we have and then shutdown
-                        should_shutdown = true;
-                        break;
+                let mut read_error = None;
+                loop {
+                    match other.as_mut().poll_fill_buf(cx) {
+                        Poll::Ready(Ok(new_buf)) => {
+                            if new_buf.is_empty() {
+                                // The other side is EOF'd, send what we have and then shutdown
+                                should_shutdown = true;
+                                break;
+                            }
+                            let processed = new_buf.len();
+                            frame::append_push_data(&mut msg_payload, new_buf);
+                            cumulated_len += processed;
+                            other.as_mut().consume(processed);
+                        }
+                        Poll::Ready(Err(e)) => {
+                            // Send what we have, then report the error: nobody holds our
+                            // waker in this case, so we must not return `Pending`
+                            read_error = Some(e);
+                            break;
+                        }
+                        Poll::Pending => break,
                     }
-                    let processed = new_buf.len();
-                    frame::append_push_data(&mut msg_payload, new_buf);
-                    cumulated_len += processed;
-                    other.as_mut().consume(processed);
                 }
                 this.us
                     .tx_msg_tx
                     .send(Message::Binary(msg_payload.into()))
                     .or(Err(BrokenPipe))?;
                 written_amt += cumulated_len;
+                if let Some(e) = read_error {
+                    *this.write_state = WriteState::Transferring(written_amt);
+                    return Poll::Ready(Err(e));
+                }
                 if should_shutdown {
                     this.us.do_shutdown();
                     *this.write_state = WriteState::Done(written_amt);
